@@ -170,13 +170,7 @@ class Engine(Interp):
                 ms.asked = tuple((pos(lo), pos(hi)) for lo, hi in ms.asked)
                 ms.asked_carry = None
         if s2.aux:
-            # keep the auxiliary differences whose two terms are still held by some value (by identity: a
-            # difference is a fact about two particular terms), under the canonical names of those values
-            keep = []
-            for h, l, d in s2.aux:
-                if h in first_alias and l in first_alias and not any(h is h2 and l is l2 for h2, l2, _ in keep):
-                    keep.append((h, l, d))
-            s2.aux = tuple((first_alias[h], first_alias[l], pos(d)) for h, l, d in keep[-8:])
+            s2.aux = tuple((h, l, pos(d)) for h, l, d in s2.aux)
         for k in sorted(s2.ghost, key=str):
             g = s2.ghost[k]
             s2.ghost[k] = (pos(g[0]), g[1])
@@ -321,6 +315,8 @@ class Engine(Interp):
         out = []
         for kind, s, v in results:
             self.abandoned_mu(s, s.frames.get(fid, {}), kind, body)
+            if s.aux:
+                slots.aux_drop(s, lambda q: (q[0] == 'loc' and q[1] == fid) or (q[0] in ('rs', 're') and q[1][0] == 'L' and q[1][1] == fid))
             s.frames.pop(fid, None)
             s.fmeta.pop(fid, None)
             s.depth = fid
